@@ -373,6 +373,8 @@ func main() {
 	nWd := flag.Int("withdraw", 200, "withdraw cases")
 	nDep := flag.Int("deposit", 200, "deposit cases")
 	nMerge := flag.Int("merge", 40, "same-block batch merge cases (IncludeSameBlockDex)")
+	nPipe := flag.Int("pipeline", 3, "two-chain pipeline runs")
+	nSteps := flag.Int("steps", 60, "steps per pipeline run")
 	outDir := flag.String("outdir", ".", "output directory")
 	_ = flag.String("replay", "", "replay file (cases regenerate deterministically from the seed)")
 	flag.Parse()
@@ -405,6 +407,9 @@ func main() {
 	w5 := &sim.CaseWriter{OutDir: *outDir, Name: "c20merge", Imports: "From V Require Import U64 Extracted DexBatch.", CaseType: "mg_case", MFun: "mg_mismatches", VFun: "mg_violations", PerShard: 10}
 	mergeCases(r.Fork(), n, *nMerge, w5)
 	w5.Close(st)
+	w6 := &sim.CaseWriter{OutDir: *outDir, Name: "c20pipe", Imports: "From V Require Import U64 Extracted DexBatch.", CaseType: "pipe_case", MFun: "pipe_mismatches", VFun: "pipe_violations", PerShard: 200}
+	pipelineCases(r.Fork(), *nPipe, *nSteps, w6, *outDir)
+	w6.Close(st)
 	fmt.Printf("c20: %d cases (%d distinct non-trivial) outcomes %v\n", st.Cases, st.Distinct, st.Outcomes)
 }
 
